@@ -190,6 +190,7 @@ func (p *Program) verifyFunc(key string, mode string) (u *Unit) {
 				Label: clauseLabel(en), Text: en.Text, Guard: exitReach, Goal: g, Contract: fc, Pos: fmt.Sprintf("%s:%d", relPath(p, fc.File), fc.Line)})
 		}
 	}
+	e.addAxioms()
 	// reachability covers: the preconditions are satisfiable and every return is reachable
 	if mode != "sweep" && mode != "own" {
 		e.addObl(&Obligation{Name: shortKey(key) + "#cover[entry]", Kind: "cover", Func: shortKey(key), Guard: "true", Goal: "false", IsCover: true, Text: "preconditions satisfiable"})
@@ -323,6 +324,7 @@ func (p *Program) verifyLemma(name string) (u *Unit) {
 		e.addObl(&Obligation{Name: fmt.Sprintf("lemma:%s#ensures[%s]", name, clauseLabel(en)), Kind: "lemma", Func: "lemma:" + name,
 			Label: clauseLabel(en), Text: en.Text, Guard: "true", Goal: g, Contract: fc, Pos: fmt.Sprintf("%s:%d", relPath(p, fc.File), fc.Line)})
 	}
+	e.addAxioms()
 	e.addObl(&Obligation{Name: "lemma:" + name + "#cover[entry]", Kind: "cover", Func: "lemma:" + name, Guard: "true", Goal: "false", IsCover: true, Text: "lemma hypotheses satisfiable"})
 	if len(e.errs) > 0 {
 		u.Err = strings.Join(e.errs, "; ")
@@ -393,5 +395,57 @@ func (env *Env) instantiate(key string, fc *FuncContract, fn *ssa.Function, sig 
 	}
 	for _, v := range vals {
 		e.assumeTypeInv(env.st, v.T, v.Typ, "true")
+	}
+}
+
+// specFuncsIn lists spec function names applied in an expression.
+func specFuncsIn(p *Program, e *Expr, out map[string]bool) {
+	if e == nil {
+		return
+	}
+	if e.Op == "call" && e.Args[0].Op == "id" {
+		if _, ok := p.Specs[e.Args[0].Name]; ok {
+			out[e.Args[0].Name] = true
+		}
+	}
+	for _, a := range e.Args {
+		specFuncsIn(p, a, out)
+	}
+}
+
+// addAxioms adds every declared axiom that speaks about a spec function this
+// unit uses. Axioms are assumptions and are recorded as such.
+func (e *Enc) addAxioms() {
+	changed := true
+	done := map[*Clause]bool{}
+	for changed {
+		changed = false
+		for _, ax := range e.prog.Axioms {
+			if done[ax.cl] {
+				continue
+			}
+			names := map[string]bool{}
+			specFuncsIn(e.prog, ax.cl.E, names)
+			hit := false
+			for n := range names {
+				if e.ctx.declared[quoteSym("sf$"+n)] {
+					hit = true
+				}
+			}
+			if !hit {
+				continue
+			}
+			done[ax.cl] = true
+			changed = true
+			st := e.newState()
+			env := &Env{enc: e, vars: map[string]*Val{}, st: st, old: st, res: e.prog.resolver(ax.file.PkgPath, ax.file.Imports)}
+			t, err := env.evalBool(ax.cl.E)
+			if err != nil {
+				e.errorf("axiom %s: %v", ax.cl.Label, err)
+				continue
+			}
+			e.ctx.assert(t)
+			e.usedTrusted["axiom "+ax.cl.Label] = ax.cl.Text
+		}
 	}
 }
